@@ -187,4 +187,96 @@ example : b3 (.and (.or (.lit .e) (.lit .t)) (.all [.lit .t, .cond (.lit .f) (.l
 example : kleene (.and (.or (.lit .e) (.lit .t)) (.all [.lit .t, .cond (.lit .f) (.lit .e) (.lit .t)])) = .t := by
   decide
 
+/-! ## Round 2 — every tree over ALL five operand classes (true, false, error, truthy / falsy non-boolean)
+
+`nesting` above needs every leaf in {true,false,error}.  The statement of C02 also speaks about non-boolean
+operands ("a false operand of `&&` decides … even when the other operand is … a non-boolean value, while two
+non-boolean operands are an error", "a … non-boolean `c` is an error").  `Cel.spec : LExpr → Option O`
+(Model/Logic.lean) is that reading as a partial function — `none` where the statement is silent — and is the
+function the check's independent oracle computes (compared with it on every run).  -/
+
+/-- **No exception escapes**: on every nesting of `&& || ! ?: all exists` over arbitrary leaves (errors,
+non-booleans) both runners hand back a value or an evaluation error, never a raw Python exception. -/
+theorem no_escape (e : LExpr) : (∃ v, runI e = .ok v) ∧ (∃ v, runC e = .ok v) :=
+  ⟨⟨vI e, evI_eq_vI e⟩, ⟨vC e, result_of_CInv5 (evC_inv5 e)⟩⟩
+
+/-- **Both runners meet the property's reading wherever it says anything** — every tree, any depth, any list
+length, non-boolean leaves included. -/
+theorem spec_sound (e : LExpr) (o : O) (h : spec e = some o) : runI e = .ok o ∧ runC e = .ok o := by
+  have hI := spec_agrees_I e
+  have hC := spec_agrees_C e
+  rw [h] at hI hC
+  refine ⟨?_, ?_⟩
+  · show evI e = _
+    rw [evI_eq_vI e, agrees_some hI]
+  · show result (evC e) = _
+    rw [result_of_CInv5 (evC_inv5 e), agrees_some hC]
+
+/-- hence the two runners agree with each other wherever the property speaks -/
+theorem runners_agree (e : LExpr) (o : O) (h : spec e = some o) : runI e = runC e := by
+  rw [(spec_sound e o h).1, (spec_sound e o h).2]
+
+/-- On three-valued trees the reading is total and is the Kleene specification: `spec_sound` generalises `nesting`. -/
+theorem spec_of_b3 (e : LExpr) (h : b3 e = true) : spec e = some (kleene e) := by
+  obtain ⟨o, ho⟩ := defd3_some (spec_defd3 e h)
+  have h1 := (spec_sound e o ho).1
+  have h2 := evI_kleene e h
+  have : o = kleene e := by
+    have h3 : (Except.ok o : PyM O) = .ok (kleene e) := by rw [← h1]; exact h2
+    injection h3
+  rw [ho, this]
+
+/-- A false operand decides `&&` at ANY depth: whatever tree the other operand is (error, non-boolean,
+something the statement is silent about), both runners give false.  Dually for `||`. -/
+theorem and_decided_nested (a b : LExpr) (h : spec a = some .f ∨ spec b = some .f) :
+    runI (.and a b) = .ok .f ∧ runC (.and a b) = .ok .f := by
+  apply spec_sound
+  simp only [spec]
+  rcases h with h | h <;> simp [specBin, h]
+theorem or_decided_nested (a b : LExpr) (h : spec a = some .t ∨ spec b = some .t) :
+    runI (.or a b) = .ok .t ∧ runC (.or a b) = .ok .t := by
+  apply spec_sound
+  simp only [spec]
+  rcases h with h | h <;> simp [specBin, h]
+
+/-- Two non-boolean operands are an error — as a statement about the runners, on operand TREES. -/
+theorem and_two_nonbool_nested (a b : LExpr) (x y : O) (ha : spec a = some x) (hb : spec b = some y)
+    (hx : x.nb = true) (hy : y.nb = true) : runI (.and a b) = .ok .e ∧ runC (.and a b) = .ok .e := by
+  apply spec_sound
+  cases x <;> cases y <;> simp_all [spec, specBin, O.nb]
+theorem or_two_nonbool_nested (a b : LExpr) (x y : O) (ha : spec a = some x) (hb : spec b = some y)
+    (hx : x.nb = true) (hy : y.nb = true) : runI (.or a b) = .ok .e ∧ runC (.or a b) = .ok .e := by
+  apply spec_sound
+  cases x <;> cases y <;> simp_all [spec, specBin, O.nb]
+
+/-- `c ? x : y` is exactly the selected branch in both runners, whatever the other branch is; an error or a
+non-boolean condition is an error whatever the branches are. -/
+theorem cond_selected (c x y : LExpr) (o : O) :
+    (spec c = some .t → spec x = some o → runI (.cond c x y) = .ok o ∧ runC (.cond c x y) = .ok o) ∧
+    (spec c = some .f → spec y = some o → runI (.cond c x y) = .ok o ∧ runC (.cond c x y) = .ok o) := by
+  constructor <;> intro hc hb <;> apply spec_sound <;> simp [spec, specCond, hc, hb]
+theorem cond_bad_condition_nested (c x y : LExpr) (v : O) (hc : spec c = some v) (hv : v.isBool = false) :
+    runI (.cond c x y) = .ok .e ∧ runC (.cond c x y) = .ok .e := by
+  apply spec_sound
+  cases v <;> simp_all [spec, specCond, O.isBool]
+
+/-- One false element decides `all` (one true element decides `exists`) whatever the other elements are. -/
+theorem all_decided (xs : List LExpr) (h : some .f ∈ specs xs) :
+    runI (.all xs) = .ok .f ∧ runC (.all xs) = .ok .f := by
+  apply spec_sound
+  simp only [spec]
+  exact foldl_specBin_dec_and _ _ (Or.inr h)
+theorem exists_decided (xs : List LExpr) (h : some .t ∈ specs xs) :
+    runI (.exists_ xs) = .ok .t ∧ runC (.exists_ xs) = .ok .t := by
+  apply spec_sound
+  simp only [spec]
+  exact foldl_specBin_dec_or _ _ (Or.inr h)
+
+/-- Non-vacuity: `1 || 2 || true` (two non-booleans, then the deciding operand of an unparenthesised chain),
+`(1 && 2) ? x : y`, a list with a non-boolean and an error before the deciding element. -/
+example : spec (.or (.or (.lit .vt) (.lit .vt)) (.lit .t)) = some .t := by decide
+example : spec (.cond (.and (.lit .vt) (.lit .vf)) (.lit .t) (.lit .f)) = some .e := by decide
+example : spec (.all [.lit .vt, .lit .e, .lit .f]) = some .f := by decide
+example : spec (.and (.lit .vt) (.lit .t)) = none := by decide
+
 end Cel.Props.C02
